@@ -179,8 +179,10 @@ class RuntimeV1_0(Runtime):
                     events, processing_log=processing_log
                 )
 
-                if len(next_events) == 0:
-                    next_events = [new_event_dict("Listen")]
+            # If there is nothing else to do (this can also happen after an action or
+            # after starting a generated flow), we wait for the next input.
+            if len(next_events) == 0:
+                next_events = [new_event_dict("Listen")]
 
             # Otherwise, we append the event and continue the processing.
             events.extend(next_events)
@@ -491,12 +493,23 @@ class RuntimeV1_0(Runtime):
         # We need to alter it to be an actual flow definition, i.e., add `define flow xxx`
         # and intent the body.
         body = event["flow_body"]
-        body = "define flow " + flow_id + ":\n" + indent(body, "  ")
 
-        # We parse the flow
-        parsed_data = parse_colang_file("dynamic.co", content=body)
+        # We parse the flow. The body comes from the LLM (multi-step generation) and was only
+        # validated as top-level Colang, so as a flow body it can still be empty or invalid.
+        # In that case we fall back to a general response, the same way `generate_next_step` does.
+        try:
+            body = "define flow " + flow_id + ":\n" + indent(body, "  ")
+            parsed_data = parse_colang_file("dynamic.co", content=body)
 
-        assert len(parsed_data["flows"]) == 1
+            if (
+                len(parsed_data["flows"]) != 1
+                or parsed_data["flows"][0]["id"] != flow_id
+            ):
+                raise ValueError("Expected exactly one dynamic flow.")
+        except Exception as e:
+            log.warning("Could not start the generated flow: %s", e)
+            return [new_event_dict("BotIntent", intent="general response")]
+
         flow = parsed_data["flows"][0]
 
         # To make sure that the flow will start now, we add a start_flow element at
